@@ -120,7 +120,7 @@ def opts_for(r, op):
     from .props import PRES
     o = {"via": r.choice(RVIAS), "pre": r.choice(PRES + [None, None]), "hi": r.choice([0, 48, 48, 16])}
     if op in ("getitem", "setitem"):
-        o["spelling"] = r.choice(["plain", "plain", "tuple", "empty", "numpy", "numpy32", "pylist"])
+        o["spelling"] = r.choice(["plain", "plain", "tuple", "empty", "numpy", "numpy32", "pylist", "numpy8"])
     if op == "setitem":
         o["npscalar"] = r.random() < 0.3
         o["collist"] = r.random() < 0.3
@@ -527,7 +527,31 @@ def gen_c09(r):
     return ["col", name, arr, j], opts_for(r, "col"), False
 
 
-GEN = {"C01": gen_c01, "C02": gen_c02, "C03": gen_c03, "C04": gen_c04, "C05": gen_c05, "C07": gen_c07, "C08": gen_c08, "C09": gen_c09}
+def gen_c19x(r):
+    """cases aimed at the index-width configuration (used by the C19 check only): many rows, narrow numpy scalars / arrays as row
+    indices, column selectors next to them, bounds far beyond the rows"""
+    n = r.choice([64, 65, 100, 127, 128, 129, 140])
+    lens = [r.choice([0, 1, 2, 2, 3]) for _ in range(n)]
+    arr = rnd_arr(r, r.choice(["i8", "i4", "u1"]), lens, distinct=True)
+    k = r.random()
+    if k < 0.5:
+        rs = ["int", r.choice([r.randint(60, n - 1), r.randint(-n, -60), n - 1, -n, 63, 64, 127, 128 % n])]
+    elif k < 0.8:
+        rs = ["list", [r.choice([r.randint(0, n - 1), r.randint(-n, -1)]) for _ in range(r.randint(1, 4))]]
+    else:
+        rs = rnd_slice(r, n)
+    cs = r.choice([rnd_slice(r, 3), rnd_slice(r, 3), ["none"], ["int", r.randint(-3, 2)]])
+    o = opts_for(r, "getitem")
+    o["spelling"] = r.choice(["numpy8", "numpy8", "numpy32", "numpy", "plain"])
+    o["via"] = r.choice(["flat", "flat", "rowview", "listview", "nprows"])
+    o["hi"] = 0
+    if r.random() < 0.3:
+        val = ["scalar", rnd_val(r, arr[0])]
+        return ["setitem", arr, rs, cs, val], o, False
+    return ["getitem", arr, rs, cs], o, False
+
+
+GEN = {"C19x": gen_c19x, "C01": gen_c01, "C02": gen_c02, "C03": gen_c03, "C04": gen_c04, "C05": gen_c05, "C07": gen_c07, "C08": gen_c08, "C09": gen_c09}
 
 
 def generate(prop, seed, n):
